@@ -8,6 +8,7 @@ From Coq Require Import Lia ZifyBool NArith List Bool.
 From BT Require Import Base.ListX Base.Bits2 LL.LLModel LL.LLSpec LL.LLSpecC27 LL.LLSpecC22 LL.LLProofs.
 From BT Require gen.GenLL ChanMap.ChanMapModel ChanMap.ChanMapSpec ChanMap.ChanMapProofs.
 From BT Require LL.LLProofsC27Sim.
+From BT Require Import LL.LLSpecC21 LL.LLProofsC21 LL.LLSimC21.
 Import ListNotations.
 Local Open Scope N_scope.
 
@@ -96,18 +97,25 @@ Qed.
 
 
 (* ========================================================================================== the environment *)
-Definition op_ok22 (o : lop) : bool :=
+(* a PDU of the central that does not touch the timing: LLID 3, not empty, without instant, not LL_TERMINATE_IND ([nq], below) *)
+Definition nq (c : cfg) (p : pdu) : bool :=
+  (fst p =? 3) && match classify21 (c_phy c) (3, snd p) with None => true | Some _ => false end && negb (is_terminate (3, snd p)).
+Definition pdu_ok22 (c : cfg) (p : pdu) : bool := (fst p =? 3) && negb (N.of_nat (length (snd p)) =? 0) && nq c p.
+Definition op_ok22 (c : cfg) (o : lop) : bool :=
   match o with
   | Run | AdvTimeout | Adv _ _ | Timeout | TxAvail _ | St | Key _ => true
-  | Ev _ pdus => match pdus with [] => true | _ => false end
+  | Ev _ pdus => negb (existsb (fun p => 27 <? N.of_nat (length (snd p))) pdus)
+                 && match pdus with [] => true | _ => negb (c_enc c) && forallb (pdu_ok22 c) pdus end
   | _ => false
   end.
 Definition cfg_ok22 (c : cfg) : bool := c_sca c <=? 500.
 Definition is_crash22 (r : lout) : bool := match r with OCrash => true | _ => false end.
+(* nothing is left in the receive queue (a control PDU stays there while no transmit buffer is available) *)
+Definition calm22 (s : lstate_t) : bool := match rxq (bf s) with [] => true | _ => false end.
 Fixpoint env22 (c : cfg) (s : lstate_t) (ops : list lop) : bool :=
   match ops with
   | [] => true
-  | o :: r => op_ok22 o && negb (is_crash22 (snd (lstep c s o))) && env22 c (fst (lstep c s o)) r
+  | o :: r => op_ok22 c o && negb (is_crash22 (snd (lstep c s o))) && calm22 (fst (lstep c s o)) && env22 c (fst (lstep c s o)) r
   end.
 
 (* ========================================================================================== invariants *)
@@ -119,7 +127,7 @@ Definition Glob (s : lstate_t) : Prop :=
   length (ChanMapModel.tbl (chan s)) = 37%nat /\ enc_prog (sc s) = false /\ ap_pending (ac s) = false /\ ring s = [] /\ deferred s = None.
 
 Definition base22 (s : lstate_t) : Prop :=
-  rxq (bf s) = [] /\ txq (bf s) = [] /\ stopped (bf s) = false /\ proc_timeout s = 0
+  rxq (bf s) = [] /\ stopped (bf s) = false /\ proc_timeout s = 0
   /\ cpr_pending (pr s) = false /\ phy_pending (pr s) = false /\ ver_pending (pr s) = false
   /\ timing_inv (tm s) (sca s).
 
@@ -165,66 +173,196 @@ Proof.
   destruct E1 as [E1 E1']. subst ws we. lia.
 Qed.
 
-Lemma empty_event c s e s' r :
-  st s = Connecting \/ st s = Connected -> base22 s -> Glob s -> lstep c s (Ev e []) = (s', r) -> r <> OCrash ->
-  exists k ch ws we rr,
-    r = OItems (ICe ch ws we (interval (tm s)) :: map ICb rr)
-    /\ forallb (fun x => match x with EvChanged _ => false | _ => true end) rr = true
-    /\ 1 <= k /\ k <= latency (tm s) + 1 /\ tsle (cs s') = k * interval (tm s) /\ ws + we = 2 * tsle (cs s')
-    /\ covers (sca s) ws we (tsle (cs s')) (tsle (cs s')) = true
-    /\ st s' = Connected /\ tm s' = set_tw_size (tm s) 0 /\ sca s' = sca s /\ base22 s' /\ Glob s'.
+(* ========================================================================================== PDUs that do not touch the timing *)
+(* Stepping stones towards events WITH PDUs in the simulation (not yet part of env22 / sim22_step): for a link layer without
+   encryption support, a receive queue of control PDUs that carry no instant (not LL_CONNECTION_UPDATE_IND, LL_CHANNEL_MAP_IND,
+   LL_PHY_UPDATE_IND) and are not LL_TERMINATE_IND - feature / version / ping / unknown / reject / connection parameter
+   request / malformed PDUs - is worked off without touching anything the timing depends on ([hrd_neutral]); and from such a
+   state end_event_continue() plans the next event exactly as after an event without PDUs ([tail22]). *)
+Definition fr22 (s s' : lstate_t) : Prop :=
+  sca s' = sca s /\ ac s' = ac s
+  /\ (cpr_pending (pr s) = false -> cpr_pending (pr s') = false)
+  /\ (phy_pending (pr s) = false -> phy_pending (pr s') = false)
+  /\ (ver_pending (pr s) = false -> ver_pending (pr s') = false)
+  /\ (proc_timeout s = 0 -> proc_timeout s' = 0)
+  /\ (enc_prog (sc s) = false -> enc_prog (sc s') = false).
+
+Lemma hlc_fr22 c s body : c_enc c = false -> fr22 s (fst (fst (handle_ll_control c s body))).
 Proof.
-  intros Hst (B1 & B2 & B3 & B4 & B5 & B6 & B7 & BT) (G1 & G2 & G3 & G4 & G5) H Hr.
-  destruct BT as (I1 & I2 & I3 & I4 & I5 & I6 & I7 & I8 & I9).
-  cbn [lstep] in H. rewrite (LLProofsC27Sim.in_conn_of s Hst) in H. cbn [existsb length Nat.add] in H.
-  rewrite B2 in H. cbn [length radio_event hd_error tl] in H.
-  unfold radio_exchange in H. rewrite B2 in H.
-  assert (EF : match fl (bf s) with FHead => tl (@nil pdu) | _ => [] end = []) by (destruct (fl (bf s)); reflexivity).
-  rewrite EF in H. clear EF.
-  set (s1 := set_bf s (mk_bufs (rxq (bf s)) [] FEmpty (stopped (bf s)) (tx_avail (bf s)))) in H.
-  assert (Hst1 : st s1 = Connecting \/ st s1 = Connected) by exact Hst.
-  destruct (do_end_event c s1 e) as [[s2 it2]|] eqn:E2; [|inversion H; subst; congruence].
-  inversion H; subst s2 r; clear H.
-  destruct (LLProofsC27Sim.prologue_form c s1 Hst1) as (rr & Esp & _).
-  assert (RR : forallb (fun x => match x with EvChanged _ => false | _ => true end) rr = true).
-  { assert (X : rr = ring (end_event_prologue c s1)) by (rewrite Esp; reflexivity). rewrite X. apply prologue_ring. exact G4. }
-  unfold do_end_event in E2. rewrite Esp in E2.
-  set (sp := set_ring (upd_tm (set_st (set_pending_event s1 false) Connected) (fun t => set_tw_size t 0)) rr) in *.
-  destruct (end_event_body c sp e) as [[s9 it9]|] eqn:EB; cbn [obind] in E2; [|discriminate].
-  unfold end_event_body in EB. change (st sp) with Connected in EB. cbn [lstate_eqb andb] in EB.
-  rewrite hrd_empty in EB by (subst sp s1; exact B1).
-  unfold send_control_pdus in EB. change (st sp) with Connected in EB. cbn [lstate_eqb andb] in EB.
-  unfold end_event_continue, procedure_timed_out in EB.
-  change (proc_timeout sp) with (proc_timeout s) in EB. rewrite B4 in EB. cbn [N.eqb negb andb] in EB.
-  unfold transmit_pending_security_pdus in EB. change (enc_prog (sc sp)) with (enc_prog (sc s)) in EB. rewrite G2, andb_false_r in EB. cbn [andb] in EB.
-  match type of EB with context [plan_next_connection_event c sp ?X] => set (ev' := X) in *; destruct (plan_next_connection_event c sp ev') as [s7|] eqn:E7 end; cbn [obind] in EB; [|discriminate].
-  destruct (anchor_after_event c sp ev' s7 I1) as (k & K1 & K2 & K3 & _); [change (interval (tm sp)) with (interval (tm s)); change (latency (tm sp)) with (latency (tm s)); nia|exact E7|].
-  apply plan_next_frame in E7. destruct E7 as [kk E7]. subst s7. set (s7 := set_cs sp kk) in *.
+  intros Enc. unfold handle_ll_control.
+  set (size := N.of_nat (length body)) in *.
+  set (opcode := if 0 <? size then byte body 0 else 255) in *.
+  destruct (ctrl_kind c (ver_received (pr s)) opcode size) eqn:K;
+    pose proof (ctrl_kind_b_inv _ _ _ _ _ _ K) as KI; cbn beta iota in KI; try congruence; cbn zeta; cbn [fst];
+    try (destruct (handle_cpr c s body) as [[r|] it]; cbn [fst]);
+    unfold handle_reject, clear_cpr_feature, commit_ctrl, commit, push_event;
+    repeat match goal with |- context [if ?b then _ else _] => destruct b end; cbn [fst];
+    unfold fr22; cbn; repeat split; auto.
+Qed.
+
+Lemma fr22_refl s : fr22 s s. Proof. unfold fr22. repeat split; auto. Qed.
+Lemma fr22_trans a b d : fr22 a b -> fr22 b d -> fr22 a d.
+Proof. unfold fr22. intros (A1 & A2 & A3 & A4 & A5 & A6 & A7) (B1 & B2 & B3 & B4 & B5 & B6 & B7). repeat split; try congruence; auto. Qed.
+
+
+Lemma hrd_neutral c (Enc : c_enc c = false) : forall fuel s,
+  forallb (nq c) (rxq (bf s)) = true -> deferred s = None ->
+  let r := handle_received_data fuel c s in
+  snd r = GoAhead /\ quiet_items (snd (fst r)) /\ fr22 s (fst (fst r)) /\ ctlq 0 s (fst (fst r)) /\ deferred (fst (fst r)) = None
+  /\ (tx_avail (bf s) = true -> (length (rxq (bf s)) < fuel)%nat -> rxq (bf (fst (fst r))) = []).
+Proof.
+  induction fuel as [|fuel IH]; intros s Hq Hd; cbn [handle_received_data].
+  { cbn [fst snd]. refine (conj eq_refl (conj eq_refl (conj (fr22_refl _) (conj (ctlq_refl _) (conj Hd _))))). intros _ H; inversion H. }
+  rewrite Hd. destruct (rxq (bf s)) as [|[llid body] rest] eqn:ERX.
+  { cbn [fst snd]. refine (conj eq_refl (conj eq_refl (conj (fr22_refl _) (conj (ctlq_refl _) (conj Hd _))))). intros _ _; exact ERX. }
+  cbn [forallb] in Hq. apply andb_prop in Hq. destruct Hq as [Hn Hrest].
+  unfold nq in Hn. cbn [fst snd] in Hn. apply andb_prop in Hn. destruct Hn as [Hn NT]. apply andb_prop in Hn. destruct Hn as [L3 CL].
+  apply N.eqb_eq in L3. subst llid. change GenLL.ll_control_pdu_code with 3. cbn [N.eqb Pos.eqb].
+  destruct (tx_buffer_available s) eqn:TA.
+  2:{ cbn [fst snd]. refine (conj eq_refl (conj eq_refl (conj (fr22_refl _) (conj (ctlq_refl _) (conj Hd _))))).
+      intros T. unfold tx_buffer_available in TA. congruence. }
+  destruct (classify21 (c_phy c) (3, body)) eqn:CL'; [discriminate|]. clear CL.
+  pose proof (hlc_other c s body Enc CL') as HO. cbn zeta in HO. apply negb_true_iff in NT. rewrite NT in HO.
+  pose proof (hlc_fr22 c s body Enc) as HF.
+  destruct (handle_ll_control c s body) as [[s1 it1] r1]. cbn [fst snd] in HO, HF.
+  destruct HO as (Q1 & -> & CK).
+  set (s2 := upd_bf s1 (fun b => set_rxq b rest)).
+  pose proof (ck_keep _ _ _ CK) as (K1 & K2 & K3 & K4 & K5 & K6 & K7).
+  assert (Hq2 : forallb (nq c) (rxq (bf s2)) = true) by exact Hrest.
+  assert (Hd2 : deferred s2 = None) by (change (deferred s2) with (deferred s1); congruence).
+  specialize (IH s2 Hq2 Hd2). cbn zeta in IH.
+  destruct (handle_received_data fuel c s2) as [[s3 it3] r3]. cbn [fst snd] in IH |- *.
+  destruct IH as (-> & Q3 & F3 & C3 & D3 & E3).
+  split; [reflexivity|]. split; [apply quiet_app; assumption|].
+  split; [eapply fr22_trans; [exact HF|]; eapply fr22_trans; [|exact F3]; unfold fr22; subst s2; cbn; repeat split; auto|].
+  split; [change 0%nat with (0 + (0 + 0))%nat; eapply ctlq_trans; [apply ctlk_ctlq; exact CK|]; eapply ctlq_trans; [apply pop_ctlq|exact C3]|].
+  split; [exact D3|].
+  intros T L. apply E3.
+  - change (tx_avail (bf s2)) with (tx_avail (bf s1)). rewrite (ck_txa _ _ _ CK). exact T.
+  - change (rxq (bf s2)) with rest. cbn [length] in L. lia.
+Qed.
+
+Lemma tail22 c s3 e s8 it8 :
+  tw_size (tm s3) = 0 -> timing_inv (tm s3) (sca s3) -> proc_timeout s3 = 0 -> enc_prog (sc s3) = false -> deferred s3 = None ->
+  end_event_continue c s3 e = Some (s8, it8) ->
+  exists k kk ch ws we,
+    it8 = [ICe ch ws we (interval (tm s3))] /\ s8 = set_pending_event (set_cs s3 kk) true
+    /\ 1 <= k /\ k <= latency (tm s3) + 1 /\ tsle kk = k * interval (tm s3) /\ ws + we = 2 * tsle kk
+    /\ covers (sca s3) ws we (tsle kk) (tsle kk) = true.
+Proof.
+  intros TW (I1 & I2 & I3 & I4 & I5 & I6 & I7 & I8 & I9) P3 EP D3 EB.
+  unfold end_event_continue, procedure_timed_out in EB. rewrite P3 in EB. cbn [N.eqb negb andb] in EB.
+  unfold transmit_pending_security_pdus in EB. rewrite EP, andb_false_r in EB. cbn [andb] in EB.
+  match type of EB with context [plan_next_connection_event c s3 ?X] => set (ev' := X) in *; destruct (plan_next_connection_event c s3 ev') as [s7|] eqn:E7 end; cbn [obind] in EB; [|discriminate].
+  destruct (anchor_after_event c s3 ev' s7 I1) as (k & K1 & K2 & K3 & _); [clear - I1 I3; nia|exact E7|].
+  apply plan_next_frame in E7. destruct E7 as [kk E7]. subst s7. set (s7 := set_cs s3 kk) in *.
   unfold pending_then_setup, handle_pending_ll_control in EB.
-  assert (D7 : deferred s7 = None) by exact G5. rewrite D7 in EB. cbn [obind] in EB.
-  destruct (setup_next_connection_event s7) as [[s8 it8]|] eqn:E8; cbn [obind] in EB; [|discriminate].
-  assert (TW7 : tw_size (tm s7) = 0) by reflexivity.
-  assert (KT : tsle (cs s7) = k * interval (tm s)) by exact K3.
-  pose proof (setup_next_sym s7 s8 it8 E8 TW7) as (ch & ws & we & Eit & Emid).
-  destruct (window_covers s7 s8 it8) as (ch' & ws' & we' & Eit' & Ecov); [| |exact E8|].
-  { rewrite KT, TW7. change (tw_off (tm s7)) with (tw_off (tm s)). unfold time_bound.
-    assert (X : k * interval (tm s) <= (latency (tm s) + 1) * interval (tm s)) by (apply N.mul_le_mono_r; exact K2).
+  assert (D7 : deferred s7 = None) by exact D3. rewrite D7 in EB. cbn [obind] in EB.
+  destruct (setup_next_connection_event s7) as [[s8' it8']|] eqn:E8; cbn [obind] in EB; [|discriminate].
+  assert (TW7 : tw_size (tm s7) = 0) by exact TW.
+  assert (KT : tsle (cs s7) = k * interval (tm s3)) by exact K3.
+  pose proof (setup_next_sym s7 s8' it8' E8 TW7) as (ch & ws & we & Eit & Emid).
+  destruct (window_covers s7 s8' it8') as (ch' & ws' & we' & Eit' & Ecov); [| |exact E8|].
+  { rewrite KT, TW7. change (tw_off (tm s7)) with (tw_off (tm s3)). unfold time_bound.
+    assert (X : k * interval (tm s3) <= (latency (tm s3) + 1) * interval (tm s3)) by (apply N.mul_le_mono_r; exact K2).
     clear - X I8 I7 I5. nia. }
   { exact I9. }
   rewrite Eit in Eit'. inversion Eit'; subst ch' ws' we'. clear Eit'.
   rewrite TW7 in Ecov. cbn [N.eqb] in Ecov. rewrite !N.add_0_r in Ecov.
   apply setup_next_frame in E8. destruct E8 as [E8 _].
-  cbn [app] in EB. inversion EB; subst s9 it9; clear EB.
-  subst s8. unfold end_event_epilogue in E2. change (st (set_pending_event s7 true)) with Connected in E2.
-  rewrite (tpcp_idle c (set_pending_event s7 true)) in E2 by assumption. cbn [flush_events] in E2. inversion E2; subst s' it2; clear E2.
-  exists k, ch, ws, we, rr.
-  rewrite Eit. cbn [app].
-  split; [reflexivity|]. split; [exact RR|]. split; [exact K1|]. split; [exact K2|].
-  split; [exact KT|]. split; [exact Emid|]. split; [exact Ecov|].
-  split; [reflexivity|]. split; [reflexivity|]. split; [reflexivity|].
+  cbn [app] in EB. inversion EB; subst s8 it8; clear EB.
+  exists k, kk, ch, ws, we. rewrite Eit. subst s8'.
+  split; [reflexivity|]. split; [reflexivity|]. split; [exact K1|]. split; [exact K2|]. split; [exact KT|]. split; [exact Emid|exact Ecov].
+Qed.
+
+Definition q22 (i : item) : bool := match i with ICe _ _ _ _ | IAdv _ | ICb (EvChanged _) => false | _ => true end.
+Lemma quiet_q22 it : quiet_items it -> forallb q22 it = true.
+Proof.
+  unfold quiet_items. induction it as [|i t IH]; [reflexivity|]. cbn [forallb]. intros H. apply andb_prop in H. destruct H as [H1 H2].
+  rewrite (IH H2), andb_true_r. destruct i as [? ?|?|? ?|? ? ? ?|? ?|?|?|cbv|?| |? ?|? ? ?|? ? ? ? ? ? ? ? ?]; try reflexivity; try discriminate H1. destruct cbv; try reflexivity; discriminate H1.
+Qed.
+Lemma tx_q22 l : forallb q22 (tx_items l) = true.
+Proof. induction l as [|p t IH]; [reflexivity|]. cbn. exact IH. Qed.
+Definition nochg (x : cb_event) : bool := match x with EvChanged _ => false | _ => true end.
+Lemma benign_nochg l : forallb benign l = true -> forallb nochg l = true.
+Proof. induction l as [|x t IH]; [reflexivity|]. cbn [forallb]. intros H. apply andb_prop in H. destruct H as [H1 H2]. rewrite (IH H2), andb_true_r. destruct x; try reflexivity; discriminate H1. Qed.
+
+Lemma unsent_le s : (length (unsent s) <= length (txq (bf s)))%nat.
+Proof. unfold unsent, unsent_b. destruct (fl (bf s)); try lia. destruct (txq (bf s)); simpl; lia. Qed.
+
+Lemma neutral_event c s e pdus s' r :
+  st s = Connecting \/ st s = Connected -> base22 s -> Glob s ->
+  existsb (fun p => 27 <? N.of_nat (length (snd p))) pdus = false ->
+  normalise21 pdus = [] \/ (c_enc c = false /\ forallb (nq c) (normalise21 pdus) = true) ->
+  lstep c s (Ev e pdus) = (s', r) -> r <> OCrash -> rxq (bf s') = [] ->
+  exists k ch ws we pre rr,
+    r = OItems (pre ++ ICe ch ws we (interval (tm s)) :: map ICb rr)
+    /\ forallb q22 pre = true /\ forallb nochg rr = true
+    /\ 1 <= k /\ k <= latency (tm s) + 1 /\ tsle (cs s') = k * interval (tm s) /\ ws + we = 2 * tsle (cs s')
+    /\ covers (sca s) ws we (tsle (cs s')) (tsle (cs s')) = true
+    /\ st s' = Connected /\ tm s' = set_tw_size (tm s) 0 /\ sca s' = sca s /\ base22 s' /\ Glob s'.
+Proof.
+  intros Hst (B1 & B3 & B4 & B5 & B6 & B7 & BT) (G1 & G2 & G3 & G4 & G5) HL HP H Hr HX.
+  pose proof BT as (I1 & I2 & I3 & I4 & I5 & I6 & I7 & I8 & I9).
+  cbn [lstep] in H. rewrite (LLProofsC27Sim.in_conn_of s Hst) in H. rewrite HL in H.
+  destruct (radio_event_spec (S (length pdus + length (txq (bf s)))) s pdus) as (b' & R1 & R2 & R3 & R4 & R5 & R6 & R7).
+  { apply le_S. apply Nat.add_le_mono_l. apply unsent_le. } { apply le_n_S. apply Nat.le_0_l. }
+  destruct (radio_event _ s pdus) as [s1 it1]. cbn [fst snd] in R1, R7. subst s1 it1.
+  set (s1 := set_bf s b') in *. rewrite B1 in R4. cbn [app] in R4.
+  assert (Hst1 : st s1 = Connecting \/ st s1 = Connected) by exact Hst.
+  destruct (do_end_event c s1 e) as [[s2 it2]|] eqn:E2; [|inversion H; subst; congruence].
+  inversion H; subst s2 r; clear H.
+  destruct (LLProofsC27Sim.prologue_form c s1 Hst1) as (rr & Esp & _).
+  assert (RR : forallb nochg rr = true).
+  { assert (X : rr = ring (end_event_prologue c s1)) by (rewrite Esp; reflexivity). rewrite X. apply prologue_ring. exact G4. }
+  unfold do_end_event in E2. rewrite Esp in E2.
+  set (sp := set_ring (upd_tm (set_st (set_pending_event s1 false) Connected) (fun t => set_tw_size t 0)) rr) in *.
+  destruct (end_event_body c sp e) as [[s9 it9]|] eqn:EB; cbn [obind] in E2; [|discriminate].
+  unfold end_event_body in EB. change (st sp) with Connected in EB. cbn [lstate_eqb andb] in EB.
+  assert (HRD : exists s3 it3, handle_received_data (S (length (rxq (bf sp)))) c sp = (s3, it3, GoAhead)
+            /\ quiet_items it3 /\ fr22 sp s3 /\ ctlq 0 sp s3 /\ deferred s3 = None).
+  { destruct HP as [HP|[Enc HP]].
+    - rewrite hrd_empty by (change (rxq (bf sp)) with (rxq b'); rewrite R4; exact HP).
+      exists sp, []. split; [reflexivity|]. split; [reflexivity|]. split; [apply fr22_refl|]. split; [apply ctlq_refl|exact G5].
+    - assert (Q : forallb (nq c) (rxq (bf sp)) = true) by (change (rxq (bf sp)) with (rxq b'); rewrite R4; exact HP).
+      pose proof (hrd_neutral c Enc (S (length (rxq (bf sp)))) sp Q G5) as HN. cbn zeta in HN.
+      destruct (handle_received_data _ c sp) as [[s3 it3] r3]. cbn [fst snd] in HN. destruct HN as (-> & Q3 & F3 & C3 & D3 & _).
+      exists s3, it3. auto. }
+  destruct HRD as (s3 & it3 & EH & Q3 & F3 & C3 & D3). rewrite EH in EB.
+  destruct F3 as (F1 & F2 & F4 & F5 & F6 & F7 & F8).
+  destruct C3 as [C1 C2 C4 C5 C6 C7 C8 (ltx & C9 & _) (evs & C10 & C11)].
+  rewrite (send_control_noop s3) in EB by (rewrite C1; reflexivity).
+  destruct (end_event_continue c s3 e) as [[s8 it8]|] eqn:EC; cbn [obind] in EB; [|discriminate].
+  inversion EB; subst s9 it9; clear EB.
+  assert (T3 : tm s3 = set_tw_size (tm s) 0) by (rewrite C4; reflexivity).
+  assert (A3 : sca s3 = sca s) by (rewrite F1; reflexivity).
+  destruct (tail22 c s3 e s8 it8) as (k & kk & ch & ws & we & Eit & E8 & K1 & K2 & KT & Emid & Ecov); try exact EC.
+  { rewrite T3. reflexivity. }
+  { rewrite T3, A3. unfold timing_inv. cbn [latency interval tw_size tw_off conn_timeout set_tw_size]. repeat split; try assumption; clear; lia. }
+  { apply F7. exact B4. } { apply F8. exact G2. } { exact D3. }
+  rewrite T3 in Eit, K2, KT. rewrite A3 in Ecov. cbn [latency interval set_tw_size] in Eit, K2, KT.
+  subst s8 it8. unfold end_event_epilogue in E2. change (st (set_pending_event (set_cs s3 kk) true)) with (st s3) in E2. rewrite C1 in E2.
+  change (st sp) with Connected in E2. cbn iota in E2.
+  assert (P5 : cpr_pending (pr s3) = false) by (apply F4; exact B5).
+  assert (P6 : phy_pending (pr s3) = false) by (apply F5; exact B6).
+  assert (P7 : ver_pending (pr s3) = false) by (apply F6; exact B7).
+  assert (P8 : ap_pending (ac s3) = false) by (rewrite F2; exact G3).
+  rewrite (tpcp_idle c (set_pending_event (set_cs s3 kk) true)) in E2 by (first [exact P5|exact P6|exact P7|exact P8]).
+  unfold flush_events in E2. inversion E2; subst s' it2; clear E2.
+  change (ring (set_pending_event (set_cs s3 kk) true)) with (ring s3). rewrite C10. change (ring sp) with rr.
+  exists k, ch, ws, we, (tx_items (unsent s) ++ it3), (rr ++ evs).
+  split; [rewrite <- !app_assoc; reflexivity|].
+  split; [rewrite forallb_app, tx_q22, (quiet_q22 _ Q3); reflexivity|].
+  split; [rewrite forallb_app, RR, (benign_nochg _ C11); reflexivity|].
+  split; [exact K1|]. split; [exact K2|]. split; [exact KT|]. split; [exact Emid|]. split; [exact Ecov|].
+  split; [exact C1|]. split; [exact T3|]. split; [exact A3|].
+  assert (TI : timing_inv (tm s3) (sca s3)).
+  { rewrite T3, A3. unfold timing_inv. cbn [latency interval tw_size tw_off conn_timeout set_tw_size]. repeat split; try assumption; clear; lia. }
   split.
-  - unfold base22, timing_inv. subst s7 sp s1. cbn. repeat split; assumption || lia.
-  - unfold Glob. subst s7 sp s1. cbn. repeat split; assumption.
+  - unfold base22. split; [exact HX|]. split; [change (stopped (bf s3) = false); rewrite C7; change (stopped b' = false); rewrite R2; exact B3|].
+    split; [exact (F7 B4)|]. split; [exact P5|]. split; [exact P6|]. split; [exact P7|exact TI].
+  - unfold Glob. split; [change (length (ChanMapModel.tbl (chan s3)) = 37%nat); rewrite C5; exact G1|].
+    split; [exact (F8 G2)|]. split; [exact P8|]. split; [reflexivity|exact D3].
 Qed.
 
 (* ========================================================================================== a missed event *)
@@ -253,7 +391,7 @@ Lemma missed_event c s s' r :
          /\ (tw_size (tm s) = 0 -> ws + we = 2 * tsle (cs s'))
          /\ base22 s' /\ Glob s'.
 Proof.
-  intros Hst (B1 & B2 & B3 & B4 & B5 & B6 & B7 & BT) HG H Hr.
+  intros Hst (B1 & B3 & B4 & B5 & B6 & B7 & BT) HG H Hr.
   pose proof HG as (G1 & G2 & G3 & G4 & G5).
   destruct BT as (I1 & I2 & I3 & I4 & I5 & I6 & I7 & I8 & I9).
   cbn [lstep] in H. rewrite (LLProofsC27Sim.in_conn_of s Hst) in H.
@@ -421,11 +559,62 @@ Qed.
 Lemma has_adv22_cbs rr : has_adv22 (map ICb rr) = false.
 Proof. induction rr; [reflexivity|assumption]. Qed.
 
+Lemma norm_ok22 c l : forallb (pdu_ok22 c) l = true -> normalise21 l = l.
+Proof.
+  induction l as [|[llid b] t IH]; [reflexivity|]. cbn [forallb]. intros H. apply andb_prop in H. destruct H as [H1 H2].
+  rewrite normalise21_cons, (IH H2). unfold pdu_ok22 in H1. cbn [fst snd] in H1.
+  apply andb_prop in H1. destruct H1 as [H1 _]. apply andb_prop in H1. destruct H1 as [L3 NE]. apply N.eqb_eq in L3. subst llid.
+  unfold norm1. cbn [fst snd]. rewrite NE. reflexivity.
+Qed.
+Lemma pdus_ok22_norm c pdus :
+  match pdus with [] => true | _ => negb (c_enc c) && forallb (pdu_ok22 c) pdus end = true ->
+  normalise21 pdus = [] \/ (c_enc c = false /\ forallb (nq c) (normalise21 pdus) = true).
+Proof.
+  destruct pdus as [|p t]; [left; reflexivity|]. intros H. right. apply andb_prop in H. destruct H as [E H].
+  split; [apply negb_true_iff; exact E|]. rewrite (norm_ok22 c _ H).
+  revert H. generalize (p :: t). induction l as [|x l IH]; [reflexivity|]. cbn [forallb]. intros H. apply andb_prop in H. destruct H as [H1 H2].
+  rewrite (IH H2), andb_true_r. unfold pdu_ok22 in H1. apply andb_prop in H1. exact (proj2 H1).
+Qed.
+Lemma pdus_ok22_updates c pdus :
+  match pdus with [] => true | _ => negb (c_enc c) && forallb (pdu_ok22 c) pdus end = true -> updates_of pdus = [].
+Proof.
+  destruct pdus as [|p t]; [reflexivity|]. intros H. apply andb_prop in H. destruct H as [_ H].
+  revert H. generalize (p :: t). induction l as [|[llid b] l IH]; [reflexivity|]. cbn [forallb]. intros H. apply andb_prop in H. destruct H as [H1 H2].
+  unfold updates_of in *. cbn [flat_map]. rewrite (IH H2), app_nil_r.
+  unfold pdu_ok22, nq in H1. cbn [fst snd] in H1.
+  apply andb_prop in H1. destruct H1 as [_ H1]. apply andb_prop in H1. destruct H1 as [H1 _]. apply andb_prop in H1. destruct H1 as [_ H1].
+  unfold classify21 in H1. cbn [N.eqb Pos.eqb negb] in H1.
+  destruct ((N.of_nat (length b) =? 12) && (byte b 0 =? 0)) eqn:E; [discriminate H1|].
+  rewrite <- andb_assoc, E, andb_false_r. reflexivity.
+Qed.
+
+Lemma fold_changed_q22 pre : forallb q22 pre = true ->
+  fold_left (fun a i => match i with ICb (EvChanged d) => Some d | _ => a end) pre None = None.
+Proof.
+  induction pre as [|i t IH]; [reflexivity|]. cbn [forallb fold_left]. intros H. apply andb_prop in H. destruct H as [H1 H2].
+  destruct i as [? ?|?|? ?|? ? ? ?|? ?|?|?|cbv|?| |? ?|? ? ?|? ? ? ? ? ? ? ? ?]; try (apply IH; exact H2). destruct cbv; try (apply IH; exact H2). discriminate H1.
+Qed.
+Lemma views22 pre ch ws we iv rr : forallb q22 pre = true -> forallb nochg rr = true ->
+  has_adv22 (pre ++ ICe ch ws we iv :: map ICb rr) = false
+  /\ find_ce (pre ++ ICe ch ws we iv :: map ICb rr) = Some (ch, ws, we, iv)
+  /\ changed_details (pre ++ ICe ch ws we iv :: map ICb rr) = None.
+Proof.
+  intros Q R. split; [|split].
+  - unfold has_adv22. rewrite existsb_app. cbn [existsb orb]. fold (has_adv22 (map ICb rr)). rewrite has_adv22_cbs, orb_false_r.
+    induction pre as [|i t IH]; [reflexivity|]. cbn [forallb] in Q. apply andb_prop in Q. destruct Q as [Q1 Q2]. cbn [existsb]. rewrite (IH Q2), orb_false_r.
+    destruct i; try reflexivity; discriminate Q1.
+  - apply find_ce_pick. apply noce22_cbs.
+  - unfold changed_details. rewrite fold_left_app, (fold_changed_q22 pre Q).
+    change (ICe ch ws we iv :: map ICb rr) with ([ICe ch ws we iv] ++ map ICb rr).
+    fold (changed_details ([ICe ch ws we iv] ++ map ICb rr)). rewrite (changed_details_cbs _ rr R). reflexivity.
+Qed.
+
 Theorem sim22_step c s p o s' r :
-  cfg_ok22 c = true -> Sim22 s p -> op_ok22 o = true -> lstep c s o = (s', r) -> r <> OCrash ->
+  cfg_ok22 c = true -> Sim22 s p -> op_ok22 c o = true -> lstep c s o = (s', r) -> r <> OCrash -> calm22 s' = true ->
   exists p', mstep22 c p o r = (Ok, p') /\ Sim22 s' p'.
 Proof.
-  intros Hc [HG HT] Ho H Hr. pose proof HG as (G1 & G2 & G3 & G4 & G5).
+  intros Hc [HG HT] Ho H Hr HX0.
+  assert (HX : rxq (bf s') = []) by (unfold calm22 in HX0; destruct (rxq (bf s')); [reflexivity|discriminate]). pose proof HG as (G1 & G2 & G3 & G4 & G5).
   destruct (p_phase p) eqn:PH.
   - (* not connected *)
     assert (NI : in_connection s = false) by (unfold T22 in HT; rewrite PH in HT; exact HT).
@@ -445,21 +634,18 @@ Proof.
     unfold T22 in HT. rewrite PH in HT. destruct HT as (Hst & HB & HZ & k & Hk & Ep).
     assert (Hst' : st s = Connecting \/ st s = Connected) by (left; exact Hst).
     pose proof (LLProofsC27Sim.in_conn_of s Hst') as IC.
-    pose proof HB as (B1 & B2 & B3 & B4 & B5 & B6 & B7 & BT). pose proof BT as (I1 & I2 & I3 & I4 & I5 & I6 & I7 & I8 & I9).
+    pose proof HB as (B1 & B3 & B4 & B5 & B6 & B7 & BT). pose proof BT as (I1 & I2 & I3 & I4 & I5 & I6 & I7 & I8 & I9).
     destruct o; try discriminate Ho.
     + cbn [lstep] in H. rewrite Hst in H. inversion H; subst s' r. exists p. split; [reflexivity|]. split; [exact HG|]. unfold T22. rewrite PH. eauto 10.
     + cbn [lstep] in H. rewrite Hst in H. inversion H; subst s' r. exists p. split; [reflexivity|]. split; [exact HG|]. unfold T22. rewrite PH. eauto 10.
     + cbn [lstep] in H. rewrite Hst in H. inversion H; subst s' r. exists p. split; [reflexivity|]. split; [exact HG|]. unfold T22. rewrite PH. eauto 10.
-    + (* Ev *) destruct pdus; [|discriminate Ho].
-      destruct (empty_event c s evts s' r Hst' HB HG H Hr) as (kk & ch & ws & we & rr & Er & RR & K1 & K2 & KT & Esum & Ecov & S1 & TM1 & A1 & HB1 & HG1).
+    + (* Ev *)
+      cbn [op_ok22] in Ho. apply andb_prop in Ho. destruct Ho as [HL HPd]. apply negb_true_iff in HL.
+      pose proof (pdus_ok22_norm c pdus HPd) as HPn. pose proof (pdus_ok22_updates c pdus HPd) as HU.
+      destruct (neutral_event c s evts pdus s' r Hst' HB HG HL HPn H Hr HX) as (kk & ch & ws & we & pre & rr & Er & QP & RR & K1 & K2 & KT & Esum & Ecov & S1 & TM1 & A1 & HB1 & HG1).
+      destruct (views22 pre ch ws we (interval (tm s)) rr QP RR) as (VA & VF & VC).
       subst r p. unfold mstep22. cbn [p_phase p_stop p_upd p_interval p_latency p_timeout p_a p_off p_size p_t p_missed].
-      change (ICe ch ws we (interval (tm s)) :: map ICb rr) with ([ICe ch ws we (interval (tm s))] ++ map ICb rr).
-      unfold has_adv22. rewrite existsb_app. fold (has_adv22 (map ICb rr)). rewrite has_adv22_cbs. cbn [existsb orb].
-      change ([ICe ch ws we (interval (tm s))] ++ map ICb rr) with ([] ++ ICe ch ws we (interval (tm s)) :: map ICb rr).
-      rewrite (find_ce_pick [] _ _ _ _ _ (noce22_cbs rr)). cbn [app updates_of flat_map].
-      rewrite andb_false_r.
-      change (ICe ch ws we (interval (tm s)) :: map ICb rr) with ([ICe ch ws we (interval (tm s))] ++ map ICb rr).
-      rewrite (changed_details_cbs _ rr RR). cbn [changed_details fold_left].
+      rewrite VA, VF, HU, VC. cbn [app]. rewrite andb_false_r.
       rewrite N.eqb_refl. cbn [negb].
       rewrite Esum, KT.
       replace ((2 * (kk * interval (tm s))) mod 2 =? 0) with true by (symmetry; apply N.eqb_eq; rewrite (N.mul_comm 2); apply N.mod_mul; discriminate).
@@ -500,21 +686,18 @@ Proof.
     unfold T22 in HT. rewrite PH in HT. destruct HT as (Hst & HB & HZ & k & Ep).
     assert (Hst' : st s = Connecting \/ st s = Connected) by (right; exact Hst).
     pose proof (LLProofsC27Sim.in_conn_of s Hst') as IC.
-    pose proof HB as (B1 & B2 & B3 & B4 & B5 & B6 & B7 & BT). pose proof BT as (I1 & I2 & I3 & I4 & I5 & I6 & I7 & I8 & I9).
+    pose proof HB as (B1 & B3 & B4 & B5 & B6 & B7 & BT). pose proof BT as (I1 & I2 & I3 & I4 & I5 & I6 & I7 & I8 & I9).
     destruct o; try discriminate Ho.
     + cbn [lstep] in H. rewrite Hst in H. inversion H; subst s' r. exists p. split; [reflexivity|]. split; [exact HG|]. unfold T22. rewrite PH. eauto 10.
     + cbn [lstep] in H. rewrite Hst in H. inversion H; subst s' r. exists p. split; [reflexivity|]. split; [exact HG|]. unfold T22. rewrite PH. eauto 10.
     + cbn [lstep] in H. rewrite Hst in H. inversion H; subst s' r. exists p. split; [reflexivity|]. split; [exact HG|]. unfold T22. rewrite PH. eauto 10.
-    + (* Ev *) destruct pdus; [|discriminate Ho].
-      destruct (empty_event c s evts s' r Hst' HB HG H Hr) as (kk & ch & ws & we & rr & Er & RR & K1 & K2 & KT & Esum & Ecov & S1 & TM1 & A1 & HB1 & HG1).
+    + (* Ev *)
+      cbn [op_ok22] in Ho. apply andb_prop in Ho. destruct Ho as [HL HPd]. apply negb_true_iff in HL.
+      pose proof (pdus_ok22_norm c pdus HPd) as HPn. pose proof (pdus_ok22_updates c pdus HPd) as HU.
+      destruct (neutral_event c s evts pdus s' r Hst' HB HG HL HPn H Hr HX) as (kk & ch & ws & we & pre & rr & Er & QP & RR & K1 & K2 & KT & Esum & Ecov & S1 & TM1 & A1 & HB1 & HG1).
+      destruct (views22 pre ch ws we (interval (tm s)) rr QP RR) as (VA & VF & VC).
       subst r p. unfold mstep22. cbn [p_phase p_stop p_upd p_interval p_latency p_timeout p_a p_off p_size p_t p_missed].
-      change (ICe ch ws we (interval (tm s)) :: map ICb rr) with ([ICe ch ws we (interval (tm s))] ++ map ICb rr).
-      unfold has_adv22. rewrite existsb_app. fold (has_adv22 (map ICb rr)). rewrite has_adv22_cbs. cbn [existsb orb].
-      change ([ICe ch ws we (interval (tm s))] ++ map ICb rr) with ([] ++ ICe ch ws we (interval (tm s)) :: map ICb rr).
-      rewrite (find_ce_pick [] _ _ _ _ _ (noce22_cbs rr)). cbn [app updates_of flat_map].
-      rewrite andb_false_r.
-      change (ICe ch ws we (interval (tm s)) :: map ICb rr) with ([ICe ch ws we (interval (tm s))] ++ map ICb rr).
-      rewrite (changed_details_cbs _ rr RR). cbn [changed_details fold_left].
+      rewrite VA, VF, HU, VC. cbn [app]. rewrite andb_false_r.
       rewrite N.eqb_refl. cbn [negb].
       rewrite Esum, KT.
       replace ((2 * (kk * interval (tm s))) mod 2 =? 0) with true by (symmetry; apply N.eqb_eq; rewrite (N.mul_comm 2); apply N.mod_mul; discriminate).
@@ -561,9 +744,9 @@ Theorem monitor22_accepts_env c : cfg_ok22 c = true ->
 Proof.
   intros Hc. induction ops as [|o t IH]; intros s p HS He; [reflexivity|].
   cbn [env22] in He. cbn [lrun]. destruct (lstep c s o) as [s1 r] eqn:E. cbn [fst snd] in He.
-  apply andb_prop in He. destruct He as [He Ht]. apply andb_prop in He. destruct He as [Ho Hn].
+  apply andb_prop in He. destruct He as [He Ht]. apply andb_prop in He. destruct He as [He Hx]. apply andb_prop in He. destruct He as [Ho Hn].
   assert (Hr : r <> OCrash) by (intros ->; discriminate Hn).
-  destruct (sim22_step c s p o s1 r Hc HS Ho E Hr) as (p1 & M1 & HS1).
+  destruct (sim22_step c s p o s1 r Hc HS Ho E Hr Hx) as (p1 & M1 & HS1).
   cbn [mrun22]. rewrite M1. apply IH; assumption.
 Qed.
 
@@ -626,3 +809,13 @@ Proof. vm_compute. reflexivity. Qed.
 Lemma like_updates_wrong_window_rejected :
   mrun22 cfg_base (minit22 cfg_base) (tamper 9 2500 (trace_of cfg_base session22_like_updates)) = Bad 2.
 Proof. vm_compute. reflexivity. Qed.
+
+(* the extended environment is inhabited by a session with control PDUs: ping, version, feature request, an unknown opcode,
+   LL_REJECT_IND, a connection parameter request, a malformed (short) connection update; the responses are on the air in
+   the following events *)
+Definition session22_pdus : list lop :=
+  [Run; connect_with 3 11 24 0 72; Ev 0 []; Ev 0 [(3, [18])]; Ev 0 [(3, [12; 9; 1; 2; 3; 4])]; Ev 0 [(3, [8; 0; 0; 0; 0; 0; 0; 0; 0])];
+   Timeout; Ev 0 [(3, [200]); (3, [13; 59])]; Ev 2 [(3, [0; 1; 2; 3])];
+   Ev 0 [(3, [15; 24; 0; 24; 0; 0; 0; 72; 0; 0; 0; 0; 0; 0; 0; 0; 0; 0; 0; 0; 0; 0; 0; 0])]; Ev 0 []; Timeout; Ev 0 []].
+Lemma session22_pdus_env : c_enc cfg_base = false /\ env22 cfg_base (linit cfg_base) session22_pdus = true.
+Proof. vm_compute. split; reflexivity. Qed.
